@@ -36,6 +36,32 @@ fn payloads(maxlen: usize, osc: bool) -> Vec<String> {
     out
 }
 
+/// only the control strings (family 1), for the parser-level sweep
+pub fn inert_strings_only(maxlen: usize) -> Vec<String> {
+    let mut v: Vec<String> = vec![];
+    let kinds: [(&str, &str, bool); 5] = [
+        ("\x1b]", "\u{9d}", true),
+        ("\x1bP", "\u{90}", false),
+        ("\x1bX", "\u{98}", false),
+        ("\x1b^", "\u{9e}", false),
+        ("\x1b_", "\u{9f}", false),
+    ];
+    for (i7, i8, osc) in kinds {
+        let pl = payloads(maxlen, osc);
+        for intro in [i7, i8] {
+            for p in &pl {
+                v.push(format!("{}{}\x1b\\", intro, p));
+                if osc {
+                    v.push(format!("{}{}\x07", intro, p));
+                } else {
+                    v.push(format!("{}{}\u{9c}", intro, p));
+                }
+            }
+        }
+    }
+    v
+}
+
 pub fn inert_inputs(maxlen: usize) -> Vec<String> {
     let mut v: Vec<String> = vec![];
     // 1. control strings
@@ -272,9 +298,31 @@ fn make(tier: Tier) -> Sys {
     }
 }
 
+/// Parser-level sweep with longer payloads (the header part of a DCS and the
+/// state changes inside strings need several payload characters to show).
+fn deep_parser_sweep(ctx: &Ctx, rep: &mut Report) {
+    use rayon::prelude::*;
+    let all = inert_strings_only(4);
+    let bad: Vec<(String, String)> = all
+        .par_iter()
+        .filter_map(|s| parser_inert(s).err().map(|e| (s.clone(), e)))
+        .collect();
+    rep.evaluations += all.len() as u64;
+    rep.traces_validated += all.len() as u64;
+    rep.parts.push(json!({"part":"parser-deep-payloads","inputs":all.len(),"max_payload_len":4,"violating":bad.len()}));
+    println!("part parser-deep-payloads: {} control strings, {} violating", all.len(), bad.len());
+    for (i, e) in bad.iter().take(3) {
+        emit_violation(ctx, rep, "C20", json!({"part":"parser","input":esc(i),"input_raw":i,"oracle":"parser-inert","observed":e}));
+    }
+    if bad.len() > 3 {
+        rep.violations += bad.len() as u64 - 3;
+    }
+}
+
 pub fn run(ctx: &Ctx) -> Report {
     let mut rep = Report::new();
     let sys = make(ctx.tier);
+    deep_parser_sweep(ctx, &mut rep);
     // parser-level oracle once per inert input (independent of the seed)
     let mut pbad = 0;
     for i in &sys.inert {
